@@ -1,4 +1,5 @@
 import re
+import threading
 from configparser import ConfigParser
 from io import StringIO
 from warnings import warn
@@ -1927,18 +1928,34 @@ class LazyCryptContext(CryptContext):
             kwds["schemes"] = schemes
         self._lazy_kwds = kwds
 
+    #: serializes lazy initialization, so that a second thread waits for the first
+    #: instead of seeing a half-initialized object (re-entrant, since the
+    #: initializing thread comes back through __getattribute__).
+    _lazy_lock = threading.RLock()
+
     def _lazy_init(self):
-        kwds = self._lazy_kwds
-        if "onload" in kwds:
-            onload = kwds.pop("onload")
-            kwds = onload(**kwds)
-        del self._lazy_kwds
-        super().__init__(**kwds)
-        self.__class__ = CryptContext
+        with LazyCryptContext._lazy_lock:
+            state = object.__getattribute__(self, "__dict__")
+            kwds = state.pop("_lazy_kwds", None)
+            if kwds is None:
+                # already initialized (by another thread, or further up this call stack)
+                return
+            orig = kwds
+            try:
+                if "onload" in kwds:
+                    kwds = dict(kwds)
+                    onload = kwds.pop("onload")
+                    kwds = onload(**kwds)
+                super().__init__(**kwds)
+            except BaseException:
+                # leave object uninitialized, so the next access tries (and fails) again
+                state.setdefault("_lazy_kwds", orig)
+                raise
+            self.__class__ = CryptContext
 
     def __getattribute__(self, attr):
-        if (
-            not attr.startswith("_") or attr.startswith("__")
-        ) and self._lazy_kwds is not None:
-            self._lazy_init()
+        if not attr.startswith("_") or attr.startswith("__"):
+            # NOTE: invoked via the class, since self.__class__ may have been
+            #       switched by another thread since this method was looked up.
+            LazyCryptContext._lazy_init(self)
         return object.__getattribute__(self, attr)
